@@ -7,7 +7,13 @@ package lib
 // (seed, case) pair replays exactly.
 type RNG struct{ s uint64 }
 
-func NewRNG(seed uint64) *RNG { return &RNG{s: seed*0x9E3779B97F4A7C15 + 0x1234567} }
+func NewRNG(seed uint64) *RNG {
+	// scramble the seed so that consecutive seeds give unrelated streams (with a plain
+	// seed*golden start, seed+1 is the same stream one draw further)
+	r := &RNG{s: seed ^ 0x5DEECE66D}
+	r.s = r.U64() ^ (seed * 0xD1342543DE82EF95)
+	return r
+}
 
 func (r *RNG) U64() uint64 {
 	r.s += 0x9E3779B97F4A7C15
